@@ -62,7 +62,7 @@ def replay(w, ctx):
 def floors(m, tier):
     out = []
     c = m['counters']
-    need = 1000 if tier == 'quick' else 12000
+    need = 1000 if tier == 'quick' else 7000
     if c.get('c05_matchings_judged', 0) < need:
         out.append('only %d matchings judged for stability' % c.get('c05_matchings_judged', 0))
     if len(m['distinct']) < need // 2:
@@ -70,6 +70,6 @@ def floors(m, tier):
     for cl in CLAUSES:
         if m['cover'].get(cl, 0) == 0:
             out.append('blocking-pair clause %s never decided' % cl)
-    if c.get('probe_points', 0) < (1000 if tier == 'quick' else 20000):
+    if c.get('probe_points', 0) < (1000 if tier == 'quick' else 10000):
         out.append('pin probe saw only %d points' % c.get('probe_points', 0))
     return out
